@@ -53,6 +53,9 @@ FragKinds ==
      \* typing
      odd_annotations |-> 1, string_annotation_errors |-> 1, typing_calls |-> 1, noncallable_deco |-> 1, builtin_arity |-> 1,
      helper_arity |-> 1, callback_arg |-> 1, return_classes |-> 1, return_metaclass |-> 0,
+     \* confined to kinds of their own: the tree deviates on them (Dev_VersionInfoCompare, Dev_AliasKeyUnhashable,
+     \* Dev_ParamSpecSubstitution below)
+     version_info_compare |-> 1, paramspec_alias |-> 1,
      \* the inputs of four repaired crashes (kept as regression generators)
      match_value_dotted |-> 0, recursive_str_alias |-> 0, pure_call_raises |-> 1]
 
@@ -119,16 +122,18 @@ ImplLinesFrom(file, i) == IF i > Len(file) THEN << >> ELSE Pieces(file[i]) \o Im
 \* node_visitor.py:237-243  _lines(): re.split(r"\r\n|\n|\r", contents) minus a trailing empty string, i.e. the physical
 \* lines themselves (before 9834ac5: contents.splitlines(), i.e. their pieces)
 ImplLines(file) == ImplLinesFrom(file, 1)
+\* (access paths that do not build the whole list when the lines are the physical lines themselves)
+ImplLen(file) == IF FixedLines THEN Len(file) ELSE Len(ImplLines(file))
+ImplLineAt(file, k) == IF FixedLines THEN file[k].t ELSE ImplLines(file)[k]
 
 NoCtx == << >>
 CtxEntry(n, t) == [n |-> n, t |-> t]
 \* node_visitor.py:723-735: lines max(lineno - 3, 1) .. min(lineno + 3, len(lines)) of _lines(), each under its number,
 \* a caret line after line `lineno` at column 6 + col_offset
 ImplContext(file, lineno, col) ==
-    LET lines == ImplLines(file)
-        lo == Max2(lineno - 3, 1)
-        hi == Min2(lineno + 3 + 1, Len(lines) + 1)
-    IN [ctx |-> [i \in 1..Max2(hi - lo, 0) |-> CtxEntry(lo + i - 1, lines[lo + i - 1])],
+    LET lo == Max2(lineno - 3, 1)
+        hi == Min2(lineno + 3 + 1, ImplLen(file) + 1)
+    IN [ctx |-> [i \in 1..Max2(hi - lo, 0) |-> CtxEntry(lo + i - 1, ImplLineAt(file, lo + i - 1))],
         caret |-> IF lineno >= lo /\ lineno < hi THEN 6 + col ELSE -1]
 
 \* the position show_error finds on the node: annotations.py:684-693 copies the location of the annotation expression onto
@@ -141,7 +146,7 @@ ImplShow(file, node, obey) ==
     IF ~node.haspos
     THEN \* :654-658 node without lineno / col_offset: the failure carries neither, no context is rendered
          [out |-> "diag", haspos |-> FALSE, lineno |-> 0, col |-> 0, ctx |-> NoCtx, caret |-> -1]
-    ELSE IF obey /\ at.lineno > Len(ImplLines(file))
+    ELSE IF obey /\ at.lineno > ImplLen(file)
     THEN \* :683 this_line = lines[lineno - 1] raises IndexError (caught by the catch-all around the node visit); not
          \* reachable for a node of the file
          [out |-> "raise", haspos |-> TRUE, lineno |-> at.lineno, col |-> at.col, ctx |-> NoCtx, caret |-> -1]
@@ -249,6 +254,41 @@ YPickFiller == ystage = "filler" /\ \E f \in YFillers, n \in YNewlines : lay' = 
 YNext == YPickSite \/ YPickPad \/ YPickAround \/ YPickFiller
 
 (***************************************************************************)
+(* K*: constant folding -- the checker EXECUTES real Python operations on  *)
+(* known constants (format(value, spec) for f-string fields, %, str.format,*)
+(* operators on literals, allow-listed pure callables on known arguments). *)
+(* A case is one operation (family, index into the family's table in       *)
+(* harness/c12_constfold.py) together with the menus of first and second   *)
+(* operands; the module has one never-called function per pair.  Menus are *)
+(* capped so that CPython evaluates every expression instantly: exponents  *)
+(* come from KSmall, repeat counts have both operands in KSmall.           *)
+(***************************************************************************)
+CONSTANTS KSecondFull      \* second operands of the unrestricted binary families: TRUE = KValues, FALSE = the sub-menu KQuick
+KFamilies == [fstr |-> 54, fconv |-> 9, fnest |-> 9, pct |-> 32, pctstar |-> 5, fmt |-> 15, fmtfield |-> 12, fmtnest |-> 5, call |-> 80, unop |-> 52, binop |-> 23, binop_small |-> 1, mul |-> 3, bincall |-> 38, bincall_small |-> 4]
+\* unary / all (second operand from KSecond) / small (second operand from KSmall) / bothsmall (both from KSmall)
+KArity == [fstr |-> "unary", fconv |-> "unary", fnest |-> "all", pct |-> "unary", pctstar |-> "all", fmt |-> "unary", fmtfield |-> "unary", fmtnest |-> "all", call |-> "unary", unop |-> "unary", binop |-> "all", binop_small |-> "small", mul |-> "bothsmall", bincall |-> "all", bincall_small |-> "small"]
+KValues == <<"m1", "zero", "one", "u255", "u256", "maxchr", "overchr", "p64", "negp64", "p1024", "f15", "negf", "inf", "nan", "str", "estr", "bytes", "none", "true", "tup", "lst">>
+KSmall == <<"m1", "zero", "one", "u255", "f15", "negf", "inf", "nan", "none", "str", "true", "tup", "lst", "bytes">>
+
+KQuick == <<"m1", "zero", "one", "overchr", "p64", "p1024", "f15", "inf", "str", "none", "tup">>
+KSecond == IF KSecondFull THEN KValues ELSE KQuick
+
+VARIABLES kcase, kstage
+kvars == <<kcase, kstage>>
+KInit == kcase = [fam |-> "none", idx |-> 0, xs |-> << >>, ys |-> << >>] /\ kstage = "fam"
+KPickFamily == kstage = "fam" /\ \E f \in DOMAIN KFamilies : kcase' = [kcase EXCEPT !.fam = f] /\ kstage' = "idx"
+KPickIndex ==
+    /\ kstage = "idx"
+    /\ \E i \in 1..KFamilies[kcase.fam] :
+          kcase' = [kcase EXCEPT !.idx = i,
+                                 !.xs = IF KArity[kcase.fam] = "bothsmall" THEN KSmall ELSE KValues,
+                                 !.ys = CASE KArity[kcase.fam] = "unary" -> << >>
+                                          [] KArity[kcase.fam] = "all" -> KSecond
+                                          [] OTHER -> KSmall]
+    /\ kstage' = "done"
+KNext == KPickFamily \/ KPickIndex
+
+(***************************************************************************)
 (* The output automaton                                                    *)
 (***************************************************************************)
 \* d = [code, haspos, lineno, col, msglen, ...]; file = the position model's lines; codes = registered error codes
@@ -274,4 +314,25 @@ TypeOK == life \in {"Start", "Diags", "Done"} /\ ndiags \in Nat
 (* The fragment kinds pure_call_raises, match_value_dotted,                *)
 (* recursive_str_alias and return_metaclass keep generating the inputs.    *)
 (***************************************************************************)
+
+(***************************************************************************)
+(* Open deviations on the input side.  exck = the exception type of the    *)
+(* "Internal error:" line, site = file:function of the innermost pyanalyze *)
+(* frame of the reported traceback, f = the fragment the report falls in.  *)
+(***************************************************************************)
+\* name_check_visitor.py:3575 _visit_single_compare evaluates `sys.version_info <op> <literal>` with the real operator and
+\* lets its TypeError escape (`sys.version_info > "3"`, `sys.version_info < 3`, `sys.version_info >= (3, "x")`)
+Dev_VersionInfoCompare(f, d) ==
+    /\ d.code = "internal_error" /\ f.kind = "version_info_compare"
+    /\ d.exck = "TypeError" /\ d.site = "name_check_visitor.py:_visit_single_compare"
+\* annotations.py:1308-1312 keys the type-alias cache by the subscripted alias object; `Alias[[int]]` (ParamSpec argument
+\* list of a PEP 695 alias) contains a list and is unhashable
+Dev_AliasKeyUnhashable(f, d) ==
+    /\ d.code = "internal_error" /\ f.kind = "paramspec_alias"
+    /\ d.exc = "Internal error: TypeError(\"unhashable type: 'list'\")" /\ d.site = "annotations.py:get_type_alias"
+\* signature.py:1784-1786 Signature.substitute_typevars asserts that a ParamSpec is replaced by a callable signature;
+\* `Alias[int]` for `type Alias[**P] = Callable[P, int]` substitutes a plain type
+Dev_ParamSpecSubstitution(f, d) ==
+    /\ d.code = "internal_error" /\ f.kind = "paramspec_alias"
+    /\ d.exck = "AssertionError" /\ d.site = "signature.py:substitute_typevars"
 =============================================================================
